@@ -8,6 +8,7 @@ import (
 	"crypto/sha256"
 	"encoding/json"
 	"fmt"
+	"github.com/google/pprof/verif/internal/sess"
 	"io"
 	"math/rand"
 	"os"
@@ -15,6 +16,7 @@ import (
 	"sort"
 	"strconv"
 	"strings"
+	"time"
 
 	"github.com/google/pprof/internal/graph"
 	"github.com/google/pprof/profile"
@@ -407,6 +409,71 @@ func runE2E(c *harness.Ctx) harness.Result {
 	return res
 }
 
+// the same command typed several times into one interactive session, with other commands
+// (also failing ones) in between, prints the same bytes every time
+func runSession(c *harness.Ctx) harness.Result {
+	r := c.Rng
+	p := TieProfile(r)
+	var buf bytes.Buffer
+	if err := p.WriteUncompressed(&buf); err != nil {
+		return harness.Result{Verdict: harness.Inconclusive, Detail: err.Error()}
+	}
+	cmds := []string{"top", "top -cum", "tree", "traces", "tags", "raw", "peek .", "dot", "callgrind", "top 3", "comments", "text f"}
+	between := []string{"list zzznomatch", "peek zzznomatch", "disasm zzznomatch", "weblist zzznomatch", "web", "svg", "top", "tags", "traces", "tree", "dot", "nosuchcommand", "top ("}
+	cmd := cmds[r.Intn(len(cmds))]
+	lines := []string{cmd}
+	for k := 0; k < 3; k++ {
+		for j, n := 0, 1+r.Intn(2); j < n; j++ {
+			lines = append(lines, between[r.Intn(len(between))])
+		}
+		lines = append(lines, cmd)
+	}
+	res := harness.Result{NonTrivial: true, Sig: fmt.Sprintf("session %q %s", lines, gen.Shape(p)), Sample: map[string]any{"lines": lines}}
+	sr, err := sess.Run(sess.Spec{Profile: buf.Bytes(), Mode: "interactive", Lines: lines, Dir: c.Tmp + "/s"}, 2*time.Minute)
+	if err != nil {
+		return harness.Result{Verdict: harness.Inconclusive, Detail: "session: " + err.Error()}
+	}
+	if sr.Panic != "" || len(sr.Segments) < len(lines) {
+		return harness.Violation("session panicked or stopped early: %s\nlines: %q", harness.Trunc(sr.Panic, 1500), lines)
+	}
+	c.Stat("sessions", 1)
+	text := func(seg sess.Segment) string {
+		var sb strings.Builder
+		sb.WriteString(seg.Stdout)
+		for _, l := range seg.UIOut {
+			sb.WriteString("\nOUT " + drv.NormalizeTmpNames(l))
+		}
+		for _, l := range seg.UIErr {
+			sb.WriteString("\nERR " + drv.NormalizeTmpNames(l))
+		}
+		var names []string
+		for n := range seg.Files {
+			names = append(names, n)
+		}
+		sort.Strings(names)
+		for _, n := range names {
+			sb.WriteString("\nFILE " + drv.NormalizeTmpNames(n) + "\n" + seg.Files[n])
+		}
+		return sb.String()
+	}
+	first := ""
+	for i, l := range lines {
+		if l != cmd {
+			continue
+		}
+		t := text(sr.Segments[i])
+		c.Stat("session_repetitions", 1)
+		if first == "" {
+			first = t
+		} else if t != first {
+			res.Verdict = harness.Violated
+			res.Detail = fmt.Sprintf("%q typed again as line %d of the session %q prints something else than the first time\n%s", cmd, i, lines[:i+1], firstDiff([]byte(first), []byte(t)))
+			return res
+		}
+	}
+	return res
+}
+
 // cross-process: three fresh processes must agree with this one
 func runXProc(c *harness.Ctx) harness.Result {
 	seed := c.Rng.Int63()
@@ -504,12 +571,13 @@ func init() {
 	harness.Register(&harness.Check{
 		ID:          "C08",
 		Level:       "exploration",
-		Rule:        "part orderlaws: tie-rich element sets of 3..6 distinct elements (values in {0,+-1,+-2,+-5}, equal names at different addresses/files/binaries) - EVERY permutation (6..720) is sorted by SortTags (flat, cum) and Nodes.Sort (7 orders incl. entropy with random edges); EdgeMap.Sort is repeated 60x (its input order is a map); the result sequence must be unique (sort.Sort is an insertion sort at these sizes, so any pair the comparator leaves unordered yields two results). part e2e: tie-class profiles (values -2..2, +/- cancelling diff shapes, equal names in several files, duplicate label values, comments and header fields, twin locations at one address with different line information) x 32 format/option combinations (top, tree, peek, dot, dot+call_tree, callgrind(+call_tree), tags, traces, raw, proto (gunzipped), topproto, tagroot/tagleaf; with and without nodecount; list (source files absent: routine headers and per-file errors), disasm through a fake object tool whose instructions carry no line information; proto/raw under show_from, focus+hide, prune_from, tagfocus+taghide; proto/raw/top with -symbolize=local through the real symbolizer over a fake object tool that names every address) rendered 8x in one process (fresh map seeds each time) plus web /top /flamegraph /peek /source on two servers; all byte strings (report bytes plus the messages printed for the user, e.g. unit warnings) equal. part xproc: the same renderings in 3 fresh processes. part fetchorder: 2-6 sources differing in main binary and comments fetched through the gated fetcher under 4 forced completion orders x 6 formats; bytes must be equal. non-trivial = every case; distinct = element set / profile shape",
+		Rule:        "part orderlaws: tie-rich element sets of 3..6 distinct elements (values in {0,+-1,+-2,+-5}, equal names at different addresses/files/binaries) - EVERY permutation (6..720) is sorted by SortTags (flat, cum) and Nodes.Sort (7 orders incl. entropy with random edges); EdgeMap.Sort is repeated 60x (its input order is a map); the result sequence must be unique (sort.Sort is an insertion sort at these sizes, so any pair the comparator leaves unordered yields two results). part e2e: tie-class profiles (values -2..2, +/- cancelling diff shapes, equal names in several files, duplicate label values, comments and header fields, twin locations at one address with different line information) x 32 format/option combinations (top, tree, peek, dot, dot+call_tree, callgrind(+call_tree), tags, traces, raw, proto (gunzipped), topproto, tagroot/tagleaf; with and without nodecount; list (source files absent: routine headers and per-file errors), disasm through a fake object tool whose instructions carry no line information; proto/raw under show_from, focus+hide, prune_from, tagfocus+taghide; proto/raw/top with -symbolize=local through the real symbolizer over a fake object tool that names every address) rendered 8x in one process (fresh map seeds each time) plus web /top /flamegraph /peek /source on two servers; all byte strings (report bytes plus the messages printed for the user, e.g. unit warnings) equal. part xproc: the same renderings in 3 fresh processes. part session: one command typed four times into a fresh interactive session with 1-2 other commands (succeeding and failing) in between; all four answers equal. part fetchorder: 2-6 sources differing in main binary and comments fetched through the gated fetcher under 4 forced completion orders x 6 formats; bytes must be equal. non-trivial = every case; distinct = element set / profile shape",
 		Assumptions: []string{"elements of one sort call have distinct identities (names of tags within a node, NodeInfo of nodes in a graph), as in pprof's own data structures", "schedule coverage = map-iteration seeds of repeated runs and fresh processes, plus forced fetch completion orders (more of them in C16)"},
 		Parts: []harness.Part{
 			{Name: "orderlaws", Quick: 3000, Thor: 100000, Run: runOrderLaws},
 			{Name: "e2e", Quick: 1500, Thor: 30000, Run: runE2E},
 			{Name: "xproc", Quick: 16, Thor: 1500, Run: runXProc},
+			{Name: "session", Quick: 150, Thor: 5000, Run: runSession},
 			{Name: "fetchorder", Quick: 100, Thor: 5000, Run: runFetchOrder},
 		},
 		MinNonTrivial: func(string) int { return 300 },
